@@ -52,7 +52,19 @@ def _skipargs(rnd):
 
 def gen_case(rnd, B):
     """returns dict(argv, expected lines or None for refusal, tag, nontrivial)"""
-    kind = rnd.choice(["date"] * 5 + ["month"] * 2 + ["time"] * 3 + ["dt"] * 2 + ["refuse"] * 2)
+    kind = rnd.choice(["date"] * 5 + ["month"] * 2 + ["time"] * 3 + ["dt"] * 2 + ["refuse"] * 2 + ["edge"])
+    if kind == "edge":
+        # the first weeks of the range: a step below the first day must end the run, not confuse it
+        rep = rnd.choice(("ymd", "ymd", "ywd", "yd"))
+        unit = rnd.choice(("d", "w"))
+        k = rnd.randrange(1, 10)
+        span = k * (7 if unit == "w" else 1)
+        n0 = R.NMIN + rnd.randrange(0, 40)
+        K = rnd.randrange(0, (n0 - R.NMIN) // span + 1)
+        seq = [n0 - j * span for j in range(K + 1)]
+        last = max(R.NMIN, seq[-1] - rnd.randrange(0, span))
+        return {"argv": ["--", REP[rep](n0), "-%d%s" % (k, unit), REP[rep](last)], "exp": [REP[rep](n) for n in seq],
+                "tag": "edge:%s:-%s" % (rep, unit), "nt": True}
     if kind == "date":
         rep = rnd.choice(list(REP))
         # a business-day date has no value on weekends: bizda progressions step in business days only
